@@ -1192,6 +1192,22 @@ int EGLPNUM_TYPENAME_ILLlib_addrow (
 	qslp = lp->O;
 	A = &qslp->A;
 
+	if (sense != 'L' && sense != 'G' && sense != 'E' && sense != 'R')
+	{
+		QSlog("illegal sense %c in EGLPNUM_TYPENAME_ILLlib_addrow", sense);
+		rval = 1;
+		ILL_CLEANUP;
+	}
+	for (i = 0; i < cnt; i++)
+	{
+		if (ind[i] < 0 || ind[i] >= qslp->nstruct)
+		{
+			QSlog("EGLPNUM_TYPENAME_ILLlib_addrow called with out-of-range column index %d", ind[i]);
+			rval = 1;
+			ILL_CLEANUP;
+		}
+	}
+
 	if (qslp->rA)
 	{															/* After an addrow call, needs to be updated */
 		EGLPNUM_TYPENAME_ILLlp_rows_clear (qslp->rA);
